@@ -146,6 +146,15 @@ def run_shard(desc):
         elif "ok" in a:
             viol(["accessor-variant", "integer", v[0]], "integer() on a non-number (%s) returned %s" % (src, json.dumps(a)), step)
         fl = acc.get("float", {})
+        if v[0] == "n" and "ok" in fl:
+            # float() of a number is the double nearest to it (what formatting and parsing the decimal gives)
+            try:
+                want = f64_bits(float(v[1]))
+            except OverflowError:
+                want = None
+            got_bits = int(fl["ok"], 16)
+            if want is not None and got_bits != want and not (v[1] == 0 and got_bits in (0, 1 << 63)):
+                viol(["float-accessor-not-nearest"], "float() on %s (value %s) returned the double %r, the nearest double is %r" % (src, v[1], struct.unpack("<d", struct.pack("<Q", got_bits))[0], float(v[1])), step)
         if v[0] != "n" and "ok" in fl:
             viol(["accessor-variant", "float", v[0]], "float() on a non-number (%s) returned %s" % (src, json.dumps(fl)), step)
 
